@@ -72,6 +72,62 @@ def generate(seed, tier, focus="frame"):
             lines.append(frame_case(g, msgs, kas, cuts))
             g.count("random_streams")
             g.count("big_streams" if big else "small_streams")
+        # the operational reader (Reader/Bufio.lean) against the real bufio.Reader + readLine / ParseMessage:
+        # small buffers so that short lines already come in fragments; CR at the buffer's last byte; CR CR LF;
+        # lines whose length is a multiple of the buffer size; unterminated ends; segment boundaries anywhere
+        def rcuts(total):
+            mode = g.rint(0, 4)
+            if mode == 0: return []
+            if mode == 1: return [1] * min(total, 400)
+            if mode == 2: return [g.rint(1, 5) for _ in range(min(total, 300))]
+            if mode == 3: return [g.pick([15, 16, 17, 31, 32, 33]) for _ in range(40)]
+            return [g.rint(1, max(1, total)) for _ in range(3)]
+        for _ in range(250 if tier == "quick" else 6000):
+            N = g.pick([16, 16, 17, 20, 32, 64, 100, 4096, 1])
+            nl = g.rint(1, 6)
+            parts = []
+            for _ in range(nl):
+                ln = g.pick([0, 1, 5, N - 2, N - 1, N, N + 1, 2 * N - 1, 2 * N, 2 * N + 1, 3 * N, g.rint(0, 3 * N + 5)])
+                ln = max(0, min(ln, 400))
+                body = g.word(ALNUM + " :;", ln, ln).encode() if ln else b""
+                if ln and g.chance(0.3):
+                    body = body[:-1] + b"\r"                      # a CR that is content (or half of CR CR LF)
+                if ln > 2 and g.chance(0.15):
+                    k = g.rint(0, ln - 1); body = body[:k] + b"\r" + body[k + 1:]
+                parts.append(body + g.pick([b"\r\n", b"\r\n", b"\n"]))
+            stream = b"".join(parts)
+            tail = g.rint(0, 3)
+            exp = ""
+            if tail == 0:
+                want = [x[:-1] if x.endswith(b"\r") else x for x in stream.split(b"\n")[:-1]]
+                exp = " # spec=C11 eq n=%d %s" % (len(want), " ".join(hx(x) for x in want))
+                exp = exp.rstrip()
+            elif tail == 1:
+                stream += g.word(ALNUM, 1, 2 * N + 3 if N < 200 else 50).encode()      # unterminated rest
+            elif tail == 2:
+                stream += b"\r"
+            else:
+                stream = stream[:-1]                                                    # ends in CR or mid-line
+            lines.append("frame blines %d %s %s%s" % (N, hx(stream), ",".join(str(c) for c in rcuts(len(stream))) or "-", exp))
+            g.count("bufio_lines"); g.count("bufio_N_%d" % N)
+        for _ in range(150 if tier == "quick" else 4000):
+            N = g.pick([16, 17, 20, 32, 64, 100, 4096])
+            big = g.chance(0.15)
+            msgs = [fmsg(g, big, tiny=g.chance(0.5) and not big) for _ in range(g.rint(1, 4 if not big else 2))]
+            kas = [g.rint(0, 3) if g.chance(0.4) else 0 for _ in msgs]
+            stream = b"".join(b"\r\n" * k + m for m, k in zip(msgs, kas))
+            kind = g.rint(0, 4)
+            exp = " # spec=C11 msgs %s" % " ".join(hx(m) for m in msgs)
+            if kind == 0:
+                stream += b"\r\n" * g.rint(0, 3)
+            elif kind == 1:
+                cutp = g.rint(1, len(msgs[-1]) - 1)
+                stream += msgs[-1][:cutp]; exp = ""                                     # truncated last message
+            elif kind == 2:
+                stream += g.pick([b"garbage\r\n\r\n", b"\r", b" \t ", b"X" * (N + 3)]); exp = ""
+            cuts = rcuts(len(stream)) if len(stream) < 3000 else [g.pick([1, 2, 100, 1000, 4095, 4096, 4097]) for _ in range(40)]
+            lines.append("frame bparse %d %s %s%s" % (N, hx(stream), ",".join(str(c) for c in cuts) or "-", exp))
+            g.count("bufio_parse"); g.count("bufio_parse_N_%d" % N)
         # streams that must stop: truncated, garbage after a message
         for _ in range(40):
             m = fmsg(g)
